@@ -95,7 +95,7 @@ impl Prop for C09 {
         }
     }
     fn required_probes(&self, _tier: Tier) -> Vec<&'static str> {
-        vec!["flip_prev", "flip_merkle", "flip_tx", "swap_other_height", "swap_foreign", "bad_genesis", "consistent_from_genesis", "consistent_start_gt_0", "odd_level_tree", "flip_at_first_processed_height", "flip_in_auxpow_block", "narrow_range_of_long_chain", "flip_genesis_header_field", "repeated_txid_as_merkle_siblings", "stored_header_differs_from_indexed_outside_prev_and_merkle"]
+        vec!["flip_prev", "flip_merkle", "flip_tx", "swap_other_height", "swap_foreign", "bad_genesis", "consistent_from_genesis", "consistent_start_gt_0", "odd_level_tree", "flip_at_first_processed_height", "flip_in_auxpow_block", "narrow_range_of_long_chain", "flip_genesis_header_field", "repeated_txid_as_merkle_siblings", "stored_header_differs_from_indexed_outside_prev_and_merkle", "pruned_predecessor_record"]
     }
     fn explore(&self, item: u64, rng: &mut Rng, tier: Tier, h: &mut Harness) -> Result<(), String> {
         let n_cons = if tier == Tier::Quick { 200 } else { 4000 };
@@ -105,6 +105,7 @@ impl Prop for C09 {
             let mut scn = new_scenario("C09", "consistent", coin);
             let g = genesis_block(coin);
             let long = rng.chance(1, 8);
+            let mut huge_done = false;
             let nb = if long { rng.usize(80, 260) } else { rng.usize(2, 7) };
             for i in 0..nb {
                 if i == 0 {
@@ -121,6 +122,13 @@ impl Prop for C09 {
                     rng.usize(1, 9)
                 };
                 let n_tx = if n_tx == 256 && rng.coin() { 257 } else { n_tx };
+                // rarely a block with tens of thousands of (tiny) transactions: a merkle tree 15 and 16 levels high
+                let n_tx = if !long && !huge_done && rng.chance(1, 150) {
+                    huge_done = true;
+                    *rng.pick(&[16_384usize, 16_385, 20_000, 32_769])
+                } else {
+                    n_tx
+                };
                 let sw = rng.coin();
                 let mut b = small_block(i as u64, n_tx, rng, sw);
                 // the same transaction twice: identical hashes as siblings at the leaf level or one level
@@ -174,6 +182,16 @@ impl Prop for C09 {
             }
             if long {
                 st_probe_long(h);
+            }
+            if scn.chain.iter().any(|b| b.txs.len() >= 16_384) {
+                h.stats.probe("block_with_16384_plus_txs");
+            }
+            // the records below the first processed height as a pruned node keeps them (no data, hash only)
+            if let Some(s0) = r.start {
+                if s0 >= 1 && rng.chance(1, 3) {
+                    scn.index.pruned_below = s0;
+                    h.stats.probe("pruned_predecessor_record");
+                }
             }
             scn.runs = vec![r];
             h.check(&mut scn)?;
@@ -239,6 +257,20 @@ impl Prop for C09 {
         world.layouts = vec![lay];
         world.index = index_opts(rng);
         let real_genesis = g.is_some() && w % 2 == 0;
+        // flags a node may have left in the index (reindex in progress, txindex on, last file): none of them
+        // weakens a check
+        if (w / 2) % 2 == 0 {
+            world.index.extra_keys = vec![
+                (Bytes(vec![b'R']), Bytes(vec![b'1'])),
+                (Bytes(b"Ftxindex".to_vec()), Bytes(vec![b'1'])),
+                (Bytes(vec![b'l']), Bytes(vec![0, 0, 0, 0])),
+            ];
+        }
+        // the predecessor of the first processed block known by its record only (pruned): the link check
+        // still compares with its hash
+        if !real_genesis && (w / 4) % 2 == 0 {
+            world.index.pruned_below = 1;
+        }
         let mut base = RunSpec::new(if w % 3 == 0 { "unspentcsvdump" } else { "csvdump" });
         base.verify = true;
         base.verbosity = [0u8, 0, 1, 2][(w % 4) as usize];
